@@ -53,8 +53,8 @@ const c28Required = "required/*"
 var c28RequiredKinds = []string{"Int32", "Int64", "Uint32", "Uint64", "Sint32", "Sint64", "Fixed32", "Fixed64", "Float", "Double", "Bool", "String", "Bytes", "Message", "Group"}
 
 var c28MutAll = []string{"set", "set", "set", "set-zero", "clear", "clear", "set-msg-empty", "mutable-msg", "list-append", "list-append", "list-set", "list-truncate", "map-set", "map-set", "map-clear",
-	"oneof-set", "oneof-set", "oneof-msg-mutable", "set-unknown", "ext-set", "ext-clear", "merge", "decode-oneof-multi", "roundtrip-bin", "roundtrip-json", "roundtrip-text", "readonly-write", "check-encoded", "json-two-members", "text-two-members", "presence-sweep"}
-var c28MutC11 = []string{"set", "set", "set-zero", "set-zero", "set-zero", "clear", "clear", "presence-sweep", "set-msg-empty", "mutable-msg", "list-append", "list-truncate", "map-set", "map-clear", "oneof-set", "ext-set", "ext-clear",
+	"oneof-set", "oneof-set", "oneof-msg-mutable", "set-unknown", "ext-set", "ext-clear", "merge", "decode-oneof-multi", "roundtrip-bin", "roundtrip-json", "roundtrip-text", "readonly-write", "check-encoded", "json-two-members", "text-two-members", "presence-sweep", "emptied-view", "emptied-view"}
+var c28MutC11 = []string{"set", "set", "set-zero", "set-zero", "set-zero", "clear", "clear", "presence-sweep", "emptied-view", "set-msg-empty", "mutable-msg", "list-append", "list-truncate", "map-set", "map-clear", "oneof-set", "ext-set", "ext-clear",
 	"roundtrip-bin", "roundtrip-bin", "roundtrip-json", "roundtrip-text", "check-encoded", "check-encoded", "merge"}
 var c28MutC12 = []string{"oneof-set", "oneof-set", "oneof-set", "oneof-set", "oneof-msg-mutable", "oneof-msg-mutable", "clear", "set", "merge", "merge", "decode-oneof-multi", "decode-oneof-multi", "decode-oneof-multi",
 	"roundtrip-bin", "roundtrip-json", "roundtrip-text", "json-two-members", "json-two-members", "text-two-members", "text-two-members", "set-msg-empty"}
@@ -571,6 +571,9 @@ func (p *c28Pair) mutate(op *scn.Op, newMsg func() proto.Message) string {
 				return ""
 			}
 			n := int(op.M) % (l.Len() + 1)
+			if op.M%3 == 0 {
+				n = 0 // emptied but once written to: the field is unpopulated again
+			}
 			l.Truncate(n)
 			am.Truncate(fd, n)
 		}
@@ -729,11 +732,41 @@ func (p *c28Pair) mutate(op *scn.Op, newMsg func() proto.Message) string {
 		// wire input naming two or three members of the oneof: the last one wins
 		var wire []byte
 		n := 2 + r.Intn(2)
+		// ... possibly with a record in between or at the end that carries the number of a member of this
+		// oneof under a wire type that member does not accept: such a record names no member, it is an
+		// unknown field, and the selection stays as it was
+		mistypedAt := -1
+		if r.Chance(1, 2) {
+			mistypedAt = r.Intn(n + 1)
+		}
+		mistyped := func() {
+			fd := od.Fields().Get(r.Intn(od.Fields().Len()))
+			var rec []byte
+			switch fd.Kind() {
+			case protoreflect.Fixed32Kind, protoreflect.Sfixed32Kind, protoreflect.FloatKind, protoreflect.Fixed64Kind, protoreflect.Sfixed64Kind, protoreflect.DoubleKind,
+				protoreflect.StringKind, protoreflect.BytesKind, protoreflect.MessageKind:
+				rec = protowire.AppendTag(rec, fd.Number(), protowire.VarintType)
+				rec = protowire.AppendVarint(rec, uint64(r.Intn(1000)))
+			case protoreflect.GroupKind:
+				return
+			default:
+				rec = protowire.AppendTag(rec, fd.Number(), protowire.Fixed32Type)
+				rec = protowire.AppendFixed32(rec, uint32(r.Intn(1000)))
+			}
+			wire = append(wire, rec...)
+			am.Unknown += string(rec)
+		}
 		for i := 0; i < n; i++ {
+			if i == mistypedAt {
+				mistyped()
+			}
 			fd := scal[r.Intn(len(scal))]
 			v := c28Value(r, fd, false)
 			wire = appendScalarField(wire, fd, v)
 			am.SetScalar(fd, v)
+		}
+		if mistypedAt == n {
+			mistyped()
 		}
 		if err := (proto.UnmarshalOptions{Merge: true, AllowPartial: true}).Unmarshal(wire, p.m); err != nil {
 			return "oneof: binary input naming several members of one oneof was rejected: " + err.Error()
@@ -933,6 +966,78 @@ func (p *c28Pair) mutate(op *scn.Op, newMsg func() proto.Message) string {
 				return fmt.Sprintf("%s: presence sweep, field %s set then cleared: %s", aspect, fd.Name(), det)
 			}
 		}
+	case "emptied-view":
+		// a list or map that was written to and emptied again is unpopulated: Has false, Range skips it,
+		// Get hands out an empty read-only view, and a write through that view panics and stays invisible
+		fd := pickFD(md, op.N, func(fd protoreflect.FieldDescriptor) bool { return (fd.IsList() || fd.IsMap()) && !am.Has(fd) })
+		if fd == nil {
+			return ""
+		}
+		if fd.IsList() {
+			l := m.Mutable(fd).List()
+			for i, k := 0, 1+r.Intn(3); i < k; i++ {
+				if fd.Message() != nil {
+					l.Append(l.NewElement())
+				} else {
+					l.Append(scalarOfKind(r, fd).ToValue())
+				}
+			}
+			if r.Bool() {
+				l.Truncate(0)
+			} else {
+				for l.Len() > 0 {
+					l.Truncate(l.Len() - 1)
+				}
+			}
+		} else {
+			mp := m.Mutable(fd).Map()
+			for i, k := 0, 1+r.Intn(3); i < k; i++ {
+				key := scalarOfKind(r, fd.MapKey()).ToValue().MapKey()
+				if fd.MapValue().Message() != nil {
+					mp.Set(key, mp.NewValue())
+				} else {
+					mp.Set(key, scalarOfKind(r, fd.MapValue()).ToValue())
+				}
+			}
+			var ks []protoreflect.MapKey
+			mp.Range(func(k protoreflect.MapKey, _ protoreflect.Value) bool { ks = append(ks, k); return true })
+			for _, k := range ks {
+				mp.Clear(k)
+			}
+		}
+		if m.Has(fd) {
+			return fmt.Sprintf("has: field %s was written to and emptied again, Has is still true", fd.Name())
+		}
+		v := m.Get(fd)
+		if (fd.IsList() && (v.List().IsValid() || v.List().Len() != 0)) || (fd.IsMap() && (v.Map().IsValid() || v.Map().Len() != 0)) {
+			return fmt.Sprintf("value: Get for field %s (written to and emptied again, Has false) returned a view that reports IsValid or is not empty", fd.Name())
+		}
+		panicked := sim.Protect(func() {
+			if fd.IsList() {
+				if fd.Message() != nil {
+					v.List().Append(v.List().NewElement())
+				} else {
+					v.List().Append(scalarOfKind(r, fd).ToValue())
+				}
+			} else if fd.MapValue().Message() != nil {
+				v.Map().Set(scalarOfKind(r, fd.MapKey()).ToValue().MapKey(), v.Map().NewValue())
+			} else {
+				v.Map().Set(scalarOfKind(r, fd.MapKey()).ToValue().MapKey(), scalarOfKind(r, fd.MapValue()).ToValue())
+			}
+		})
+		if panicked == "" {
+			return fmt.Sprintf("value: writing through the view returned by Get for emptied field %s did not panic", fd.Name())
+		}
+		visited := false
+		m.Range(func(f protoreflect.FieldDescriptor, _ protoreflect.Value) bool {
+			if f.Number() == fd.Number() {
+				visited = true
+			}
+			return true
+		})
+		if m.Has(fd) || visited {
+			return fmt.Sprintf("has: a refused write through the read-only view of field %s became visible (Has %v, Range visits it: %v)", fd.Name(), m.Has(fd), visited)
+		}
 	case "readonly-write":
 		// Get of an unpopulated composite returns an empty read-only view: writing through it must panic
 		fd := pickFD(md, op.N, func(fd protoreflect.FieldDescriptor) bool {
@@ -942,11 +1047,24 @@ func (p *c28Pair) mutate(op *scn.Op, newMsg func() proto.Message) string {
 			return ""
 		}
 		v := m.Get(fd)
+		valid := false
+		switch {
+		case fd.IsList():
+			valid = v.List().IsValid()
+		case fd.IsMap():
+			valid = v.Map().IsValid()
+		default:
+			valid = v.Message().IsValid()
+		}
+		if valid {
+			return fmt.Sprintf("value: Get for unpopulated field %s returned a value that reports IsValid (a writable view) although Has is false", fd.Name())
+		}
 		panicked := sim.Protect(func() {
 			switch {
 			case fd.IsList():
 				if fd.Message() != nil {
-					return // NewElement on a read-only list is allowed; Append is not, but needs an element
+					v.List().Append(v.List().NewElement()) // NewElement on a read-only list is allowed; Append is not
+					return
 				}
 				v.List().Append(scalarOfKind(r, fd).ToValue())
 			case fd.IsMap():
@@ -965,7 +1083,7 @@ func (p *c28Pair) mutate(op *scn.Op, newMsg func() proto.Message) string {
 		wrote := false
 		switch {
 		case fd.IsList():
-			wrote = fd.Message() == nil
+			wrote = true
 		case fd.IsMap():
 			wrote = fd.MapValue().Message() == nil
 		default:
